@@ -44,6 +44,9 @@ def cases(tier, seed):
         if tier == "quick" and lay == "dense" and not (death == ["ibm", "both"][seed % 2] and P == 1 + seed % 2):
             continue  # ladim's dense files cost ~0.1 s per record (16 MB HDF5 chunks): quick keeps a seed-chosen slice
         out.append(dict(scheme=sch, layout=lay, death=death, period=P, kill_step=ks))
+    # the same differential with the release positions given as longitude/latitude on a curved (polar stereographic) grid
+    for sch, death in itertools.product(b["schemes"][:2], ["none", "ibm"]):
+        out.append(dict(scheme=sch, layout="sparse", death=death, period=1, kill_step=1, coords="ll"))
     return out
 
 
@@ -54,7 +57,9 @@ def make_world():
     m = np.ones((jmax, imax))
     m[5, 4] = 0  # island
     dx = 800.0 * (1.0 + 0.25 * ((ii + 2 * jj) % 3))  # cell-wise varying metric: a stale metric shows up as soon as a particle changes cell
-    w = world.World(imax=imax, jmax=jmax, N=N, h=h, mask=m, dx=dx, theta_s=3.0, theta_b=0.4, hc=5.0)
+    from mc.props.c16 import polar_grid
+
+    w = world.World(imax=imax, jmax=jmax, N=N, h=h, mask=m, dx=dx, theta_s=3.0, theta_b=0.4, hc=5.0, lonlat=polar_grid(imax, jmax, 20000.0, 30.0))
     k = np.arange(N)[:, None, None]
     ju, iu = np.meshgrid(np.arange(jmax), np.arange(imax - 1), indexing="ij")
     jv, iv = np.meshgrid(np.arange(jmax - 1), np.arange(imax), indexing="ij")
@@ -67,9 +72,9 @@ def make_world():
 W, F0, F1 = make_world()
 ROWS = [  # (tag, slot, X, Y, Z)
     (10, 0, 3.3, 3.6, 2.0),   # the victim: first in the file, so its removal shifts everybody else's index
-    (11, 0, 3.7, 2.4, 14.0),
+    (11, 0, 3.7, 2.4, 61.0),   # below the deepest rho level of its cell (h = 64 m there): the constant-extension branch of the level lookup
     (12, 0, 3.45, 5.2, 33.0),  # pushed against the island at rho cell (4,5): its move is cancelled step after step
-    (13, 2, 4.4, 3.1, 7.0),   # late release
+    (13, 2, 5.45, 4.55, 7.0),   # late release, close to the centre of the grid (where the lon/lat solver starts)
 ]
 
 
@@ -77,14 +82,25 @@ def run_variant(case, rows, shift=0, mults=None, name="v"):
     """rows: list of indices into ROWS in file order. Returns {tag: [per record tuple]} or raises RunFailed."""
     d = util.scratch("c14")
     t0 = S0 + shift * DT
-    W.write_file(d / "f_a.nc", [dict(t=t0 - DT, **F0)])
-    W.write_file(d / "f_b.nc", [dict(t=t0 + 3 * DT, **F1), dict(t=t0 + (NSTEPS + 1) * DT, **F0)])
+    # a frame at every step, counted in float hours (first file) and float days (second file): 10-minute frames are not
+    # representable, so decoding the time axis must not depend on the whole-step shift of the set-up
+    def fr(k):
+        c = 1.0 + 0.0625 * k
+        return dict(t=t0 + k * DT, u=F0["u"] * c, v=F0["v"] * c - 0.0078125 * k, temp=F0["temp"] + k)
+
+    W.write_file(d / "f_a.nc", [fr(k) for k in range(-1, 3)], time_units="hours since 1970-01-01 00:00:00")
+    W.write_file(d / "f_b.nc", [fr(k) for k in range(3, NSTEPS + 2)], time_units="days since 1970-01-01 00:00:00")
     rr = []
     for k, ri in enumerate(rows):
         tag, slot, x, y, z = ROWS[ri]
         if case["death"] in ("leave", "both") and tag == 10:
             x, y = 8.5 - 0.3, 3.6  # leaves through the eastern edge of the valid region (x < imax-2.5 = 8.5)
-        rr.append(dict(mult=(mults or {}).get(ri, 1), release_time=world.iso(t0 + slot * DT), X=x, Y=y, Z=z, tag=tag))
+        if case.get("coords") == "ll":
+            from mc.props.c16 import bilin
+
+            rr.append(dict(mult=(mults or {}).get(ri, 1), release_time=world.iso(t0 + slot * DT), lon=repr(float(bilin(W.lon, x, y))), lat=repr(float(bilin(W.lat, x, y))), Z=z, tag=tag))
+        else:
+            rr.append(dict(mult=(mults or {}).get(ri, 1), release_time=world.iso(t0 + slot * DT), X=x, Y=y, Z=z, tag=tag))
     rr.sort(key=lambda r: r["release_time"])  # stable: keeps the given order within a release time
     ibm = dict(module=drive.plug("sibm.py"), age=True)
     if case["death"] in ("ibm", "both"):
